@@ -172,3 +172,49 @@ func VerifHarness_C19_CosineGrid() {
 	}
 	verifReach("cosine")
 }
+
+func c19EmbeddingFile(rows [][]float32) []byte {
+	var out []byte
+	put32 := func(v uint32) { out = append(out, byte(v), byte(v>>8), byte(v>>16), byte(v>>24)) }
+	put32(uint32(len(rows)))
+	dim := 0
+	if len(rows) > 0 {
+		dim = len(rows[0])
+	}
+	put32(uint32(dim))
+	for _, r := range rows {
+		for _, x := range r {
+			put32(math.Float32bits(x))
+		}
+	}
+	return out
+}
+
+// a second command-embedding table loaded into the same index: scores are those of the table
+// loaded last, as for a fresh index
+func VerifHarness_C19_Reload() {
+	root := verifFSRoot()
+	t1 := [][]float32{{1, 0}, {0, 2}}
+	t2 := [][]float32{{3, 4}, {1, 1}, {0, 5}}
+	if verifBool("shrink") {
+		t1, t2 = t2, t1
+	}
+	verifFSPutBytes(root+"/a.bin", c19EmbeddingFile(t1))
+	verifFSPutBytes(root+"/b.bin", c19EmbeddingFile(t2))
+	q := []float32{[]float32{1, 0, 3}[verifIntRange("q0", 0, 2)], []float32{1, 2}[verifIntRange("q1", 0, 1)]}
+	idx := &Index{Dimension: 2, WordVectors: map[string][]float32{}}
+	verifAssert(idx.LoadCommandEmbeddings(root+"/a.bin") == nil, "C19: a well-formed table loads")
+	_ = idx.SemanticScores(q)
+	verifAssert(idx.LoadCommandEmbeddings(root+"/b.bin") == nil, "C19: a well-formed table loads")
+	got := idx.SemanticScores(q)
+	fresh := &Index{Dimension: 2, WordVectors: map[string][]float32{}}
+	_ = fresh.LoadCommandEmbeddings(root + "/b.bin")
+	want := fresh.SemanticScores(q)
+	verifAssert(len(got) == len(want) && len(got) == len(t2), "C19: one similarity per command of the table loaded last")
+	if len(got) == len(want) {
+		for k := range got {
+			verifAssert(math.Float64bits(got[k]) == math.Float64bits(want[k]), "C19: similarities are those of the table loaded last")
+		}
+	}
+	verifReach("loaded")
+}
